@@ -25,7 +25,7 @@ func NewMtreeFS(w io.Writer) (MtreeFS, error) {
 
 func (fs MtreeFS) CreateDir(n NodeDirectory) error {
 	attr := []string{mtreeFilename(n.Name), "type=dir"}
-	attr = append(attr, fmt.Sprintf("mode=%04o", n.Mode.Perm()))
+	attr = append(attr, fmt.Sprintf("mode=%04o", FilemodeToStatMode(n.Mode)&07777))
 	attr = append(attr, fmt.Sprintf("uid=%d", n.UID))
 	attr = append(attr, fmt.Sprintf("gid=%d", n.GID))
 	attr = append(attr, fmt.Sprintf("time=%d.%09d", n.MTime.Unix(), n.MTime.Nanosecond()))
@@ -35,7 +35,7 @@ func (fs MtreeFS) CreateDir(n NodeDirectory) error {
 
 func (fs MtreeFS) CreateFile(n NodeFile) error {
 	attr := []string{mtreeFilename(n.Name), "type=file"}
-	attr = append(attr, fmt.Sprintf("mode=%04o", n.Mode.Perm()))
+	attr = append(attr, fmt.Sprintf("mode=%04o", FilemodeToStatMode(n.Mode)&07777))
 	attr = append(attr, fmt.Sprintf("uid=%d", n.UID))
 	attr = append(attr, fmt.Sprintf("gid=%d", n.GID))
 	attr = append(attr, fmt.Sprintf("size=%d", n.Size))
@@ -63,7 +63,7 @@ func (fs MtreeFS) CreateFile(n NodeFile) error {
 
 func (fs MtreeFS) CreateSymlink(n NodeSymlink) error {
 	attr := []string{mtreeFilename(n.Name), "type=link"}
-	attr = append(attr, fmt.Sprintf("mode=%04o", n.Mode.Perm()))
+	attr = append(attr, fmt.Sprintf("mode=%04o", FilemodeToStatMode(n.Mode)&07777))
 	attr = append(attr, fmt.Sprintf("target=%s", mtreeFilename(n.Target)))
 	attr = append(attr, fmt.Sprintf("uid=%d", n.UID))
 	attr = append(attr, fmt.Sprintf("gid=%d", n.GID))
@@ -79,7 +79,7 @@ func (fs MtreeFS) CreateDevice(n NodeDevice) error {
 	} else {
 		attr = append(attr, "type=block")
 	}
-	attr = append(attr, fmt.Sprintf("mode=%04o", n.Mode.Perm()))
+	attr = append(attr, fmt.Sprintf("mode=%04o", FilemodeToStatMode(n.Mode)&07777))
 	attr = append(attr, fmt.Sprintf("uid=%d", n.UID))
 	attr = append(attr, fmt.Sprintf("gid=%d", n.GID))
 	attr = append(attr, fmt.Sprintf("time=%d.%09d", n.MTime.Unix(), n.MTime.Nanosecond()))
@@ -97,7 +97,7 @@ func mtreeFilename(s string) string {
 	var b strings.Builder
 	for _, c := range []byte(s) {
 		switch {
-		case c == '\\' || c == '#' || c < 32 || c > 126:
+		case c == '\\' || c == '#' || c <= 32 || c > 126:
 			b.WriteString(fmt.Sprintf("\\%03o", c))
 		default:
 			b.WriteByte(c)
